@@ -278,7 +278,9 @@ structure NewBuffer where
   deriving Repr, DecidableEq
 
 /-- `asn_encode_to_new_buffer`; `mallocOk` = the initial MALLOC(16) succeeds, `allocOk i` = the i-th REALLOC
-    succeeds.  A non-terminating doubling loop is reported as `abort` as well (it never returns). -/
+    succeeds.  A non-terminating doubling loop is reported as `abort` as well (it never returns).
+    `if(res.result.encoded < 0 && buf_key.buffer) { FREEMEM(buf_key.buffer); buf_key.buffer = 0; }` (errno is
+    saved and restored around it): a failed encoding returns no buffer (repair of F39). -/
 def asnEncodeToNewBuffer (syn : Syntax) (ops : Option TypeOps) (mallocOk : Bool) (allocOk : Nat → Bool)
     (junk : Nat) : Api NewBuffer :=
   let key0 : DynKey := ⟨if mallocOk then some (List.replicate 16 junk) else none, 16, 0, 0, false⟩
@@ -287,6 +289,8 @@ def asnEncodeToNewBuffer (syn : Syntax) (ops : Option TypeOps) (mallocOk : Bool)
     if key.stuck then .abort
     else if er.encoded ≥ 0 ∧ er.encoded ≠ (key.computedSize : Int) then .abort
     else
+      -- failed to encode: release the partial output, (.buffer) is NULL
+      let key := if er.encoded < 0 then { key with buffer := none } else key
       match key.buffer with
       | none => .done ⟨none, er, key⟩
       | some b =>
